@@ -743,7 +743,30 @@ impl HashColumn {
 		let reindex = self.reindex.upgradable_read();
 		let existing = Self::search_all_indexes(change.key(), &tables, &reindex, log)?;
 		if let Some((table, sub_index, existing_address)) = existing {
-			self.write_plan_existing(&tables, change, log, table, sub_index, existing_address)
+			let (outcome, unindexed) = self.write_plan_existing(
+				&tables,
+				change,
+				log,
+				table,
+				sub_index,
+				existing_address,
+			)?;
+			if let Some(address) = unindexed {
+				// The value has moved but the index had no room for its entry. Grow the index until
+				// the entry fits, as for a new key.
+				let (mut tables, mut reindex) = (tables, reindex);
+				loop {
+					log::debug!(target: "parity-db", "{}: Index chunk full {}", tables.index.id, hex(change.key()));
+					(tables, reindex) = Self::trigger_reindex(tables, reindex, self.path.as_path());
+					if !matches!(
+						tables.index.write_insert_plan(change.key(), address, None, log)?,
+						PlanOutcome::NeedReindex
+					) {
+						break
+					}
+				}
+			}
+			Ok(outcome)
 		} else {
 			match change {
 				Operation::Set(key, value) => {
@@ -782,11 +805,12 @@ impl HashColumn {
 		index: &IndexTable,
 		sub_index: usize,
 		existing_address: Address,
-	) -> Result<PlanOutcome> {
+	) -> Result<(PlanOutcome, Option<Address>)> {
 		let stats = if self.collect_stats { Some(&self.stats) } else { None };
 
 		let key = change.key();
 		let table_key = TableKey::Partial(*key);
+		// The second component is the new address of a value that has moved but could not be indexed.
 		match Column::write_existing_value_plan(
 			&table_key,
 			self.as_ref(&tables.value),
@@ -796,17 +820,20 @@ impl HashColumn {
 			stats,
 			self.ref_counted,
 		)? {
-			(Some(outcome), _) => Ok(outcome),
+			(Some(outcome), _) => Ok((outcome, None)),
 			(None, Some(value_address)) => {
 				// If it was found in an older index we just insert a new entry. Reindex won't
 				// overwrite it.
 				let sub_index = if index.id == tables.index.id { Some(sub_index) } else { None };
-				tables.index.write_insert_plan(key, value_address, sub_index, log)
+				match tables.index.write_insert_plan(key, value_address, sub_index, log)? {
+					PlanOutcome::NeedReindex => Ok((PlanOutcome::NeedReindex, Some(value_address))),
+					outcome => Ok((outcome, None)),
+				}
 			},
 			(None, None) => {
 				log::trace!(target: "parity-db", "{}: Removing from index {}", tables.index.id, hex(key));
 				index.write_remove_plan(key, sub_index, log)?;
-				Ok(PlanOutcome::Written)
+				Ok((PlanOutcome::Written, None))
 			},
 		}
 	}
